@@ -1475,6 +1475,26 @@ func verifRA(t *testing.T, r *vfh.Rand, out *vfh.Out, op string) {
 			raImpl(t, e, impl, ifi, fw, op)
 		}
 		out.Line(e.t.String(), impl.String())
+		// one time in three the SAME parsed configuration is then asked again under one or two
+		// further system states (other addresses, routes, hardware address, a later clock, the
+		// other forwarding value): every RA is built from the state of its own moment, nothing
+		// is remembered from an earlier build
+		if pan == nil && err == nil && k%3 == 0 {
+			for again := 1 + r.Intn(2); again > 0; again-- {
+				sys2 := genSys(r, epoch)
+				fw2 := r.Bool()
+				e2 := &enc{t: new(vfh.Toks)}
+				e2.t.S(op)
+				e2.iface(gi)
+				sys2.toks(e2.t)
+				e2.t.B(fw2)
+				impl2 := new(vfh.Toks)
+				ifi := cfg.Interfaces[0]
+				sys2.inject(ifi)
+				raImpl(t, e2, impl2, ifi, fw2, op)
+				out.Line(e2.t.String(), impl2.String())
+			}
+		}
 	}
 }
 
